@@ -51,6 +51,40 @@ var dayStarts = []int64{1704844800 /* 2024-01-10 */, 1706659200 /* 2024-01-31 */
 var offsets = []int64{300, 600, 43200, 86100, 86399}
 var ifNames = []string{"eth0", "eth1", "t4"}
 
+// days of January 2024 used to build month directories with up to 8 day entries
+var janDays = []int64{1704240000 /* 03 */, 1704412800 /* 05 */, 1704672000 /* 08 */, 1704844800, /* 10 */
+	1705190400 /* 14 */, 1705536000 /* 18 */, 1705881600 /* 22 */, 1706227200 /* 26 */}
+
+// monthCase: a destination month directory with n day entries; the day at position pos is replaced by the merge.
+// before=true: copy of a smaller complete source day over a complete day (the merged day sorts directly BEFORE its
+// backup: <ts>_2-... < <ts>_3-...backup); false: rebuild (the backup sorts before the merged day)
+func monthCase(n, pos int, before bool) Input {
+	g := &idgen{}
+	var dst Iface
+	dst.Name = "eth0"
+	for k := 0; k < n; k++ {
+		if k == pos {
+			if before {
+				dst.Days = append(dst.Days, g.day(janDays[k], 300, 43200, 86100))
+			} else {
+				dst.Days = append(dst.Days, g.day(janDays[k], 300, 600))
+			}
+		} else {
+			dst.Days = append(dst.Days, g.day(janDays[k], 43200))
+		}
+	}
+	in := Input{Dst: []Iface{dst}}
+	if before {
+		in.Src = []Iface{{"eth0", []Day{g.day(janDays[pos], 300, 86100)}}}
+		in.Overwrite = true
+		in.TolSec = 0
+	} else {
+		in.Src = []Iface{{"eth0", []Day{g.day(janDays[pos], 600, 43200)}}}
+		in.TolSec = 150
+	}
+	return in
+}
+
 type idgen struct{ n int }
 
 func (g *idgen) day(ts int64, offs ...int64) Day {
@@ -105,6 +139,9 @@ func fixedCases() []Input {
 	g = &idgen{}
 	// 11 huge tolerance: every non-empty day is complete
 	out = append(out, Input{Dst: []Iface{{"eth0", []Day{g.day(d0, 43200)}}}, Src: []Iface{{"eth0", []Day{g.day(d0, 600)}}}, TolSec: 100000, Overwrite: true, FilePoints: 1})
+	// month directories of several shapes: the merged day first / in the middle / last
+	out = append(out, monthCase(3, 0, true), monthCase(7, 4, true), monthCase(4, 0, true), monthCase(8, 7, true),
+		monthCase(5, 2, false), monthCase(2, 0, true))
 	return out
 }
 
@@ -112,6 +149,10 @@ func genInput(r *vhlib.Rand, i int, o vhlib.Opts) any {
 	fc := fixedCases()
 	if i < len(fc) && !o.Search {
 		return fc[i]
+	}
+	if r.Chance(35) {
+		n := 1 + r.Intn(8)
+		return monthCase(n, r.Intn(n), r.Chance(70))
 	}
 	g := &idgen{}
 	maxIf, maxDays := 2, 2
@@ -489,6 +530,15 @@ func stateOldOrNew(s, before, final *State) string {
 			}
 		}
 		for _, t := range pi.Targets {
+			var names []string
+			for _, d := range pi.Walk {
+				if d.TS == t.TS {
+					names = append(names, d.Name)
+				}
+			}
+			if len(names) > 0 && (!contains(names, t.Write) || !contains(names, t.Recover)) {
+				return fmt.Sprintf("prefix-search-misses-day:%d write=%s recover=%s", t.TS, t.Write, t.Recover)
+			}
 			if isArtifact(t.Write) {
 				return "writer-would-open-artifact:" + t.Write
 			}
